@@ -155,7 +155,7 @@ class Bio(Suite):
 if __name__ == "__main__":
     import sys
     prop = os.environ.get("VERIF_PROP", "C08")
-    main(prop, [Improve(), Bio()], gen_targets=["delta", "moves", "step6"],
+    main(prop, [Improve(), Bio()], gen_targets=["delta", "moves", "biokernel", "step6"],
          level_note="see MANIFEST",
          rule="improve: the jitted local search from EVERY tie/order pattern (dense bucket-id vector) of length <= 4 on random tables, and "
               "from random vectors up to 8 elements; bioconsert: witnesses of F3/F4, random and layered datasets up to 7 elements with 7 "
